@@ -561,6 +561,8 @@ where
             if self.range.1 == 0 || !self.repeat.again() {
                 return Ok(BlockRet::EOF);
             }
+            // A trailing partial sample is not part of the data.
+            self.buf.clear();
             self.file.seek(std::io::SeekFrom::Start(self.range.0))?;
             self.left = self.range.1;
         }
